@@ -714,6 +714,41 @@ impl Gen {
         MsgAst { units, trailing_semicolon: rng.below(16) < self.opts.trailing_semicolon_16 }
     }
 
+    /// A unit written relative to the non-empty `path` that resolves to nothing
+    /// there (expected: exactly one -113, no call).
+    pub fn undefined_rel_unit(&self, path: &[String], rng: &mut Rng) -> Option<UnitAst> {
+        if path.is_empty() {
+            return None;
+        }
+        for _ in 0..20 {
+            let di = rng.below(self.iface.decls.len());
+            if self.decls[di].is_common() {
+                continue;
+            }
+            let sp = rng.pick(&self.spellings[di]).clone();
+            let mut full: Vec<&str> = path.iter().map(|s| s.as_str()).collect();
+            full.extend(sp.iter().map(|s| s.as_str()));
+            let query = rng.chance(1, 2);
+            if self.model.resolve(&full, query).is_some() {
+                continue;
+            }
+            let mnems = self.mnems_for(di, &sp, 0);
+            return Some(UnitAst {
+                abs: false,
+                mnems,
+                raw_header: None,
+                query,
+                lits: vec![],
+                bad_sep_at: None,
+                expects: vec![Expect::Err(ErrSpec::Num(-113))],
+                fault: Some(Fault::UnknownMnem),
+                target: None,
+                payload_newline: false,
+            });
+        }
+        None
+    }
+
     /// A message with exactly one faulty unit at the given position class
     /// (0 first, 1 middle, 2 last).  Units after the fault are absolute.
     pub fn faulty_msg(&self, fault: Fault, pos_class: u8, rng: &mut Rng) -> Option<MsgAst> {
